@@ -44,6 +44,11 @@ fn json_corpus() -> Vec<Value> {
         json!({"type":"object","properties":{"n":{"type":"object","properties":{"m":{"type":"object","properties":{"l":{"type":"array","items":{"type":"array","items":{"type":"integer"}}}},"additionalProperties":false}},"additionalProperties":false}},"additionalProperties":false}),
         json!({"oneOf":[{"type":"integer"},{"type":"string","minLength":2}]}),
         json!({"type":"array","items":{"$ref":"#"},"maxItems":2}),
+        // definitions referenced exactly once, with a single-rule body, under a multi-rule parent (unit-rule aliases
+        // whose target is itself inlined away)
+        json!({"x-guidance":{"whitespace_flexible":false},"anyOf":[{"$ref":"#/$defs/A"},{"type":"boolean"}],"$defs":{"A":{"type":"object","properties":{"x":{"type":"null"}},"required":["x"],"additionalProperties":false}}}),
+        json!({"anyOf":[{"$ref":"#/$defs/P"},{"type":"null"},{"$ref":"#/$defs/Q"}],"$defs":{"P":{"type":"array","prefixItems":[{"type":"boolean"},{"type":"null"}],"items":false,"minItems":2},"Q":{"type":"object","properties":{"k":{"$ref":"#/$defs/R"}},"required":["k"],"additionalProperties":false},"R":{"type":"array","prefixItems":[{"const":1}],"items":false,"minItems":1}}}),
+        json!({"type":"object","properties":{"a":{"anyOf":[{"$ref":"#/$defs/T"},{"type":"integer"}]}},"required":["a"],"additionalProperties":false,"$defs":{"T":{"type":"object","properties":{"u":{"type":"boolean"}},"required":["u"],"additionalProperties":false}}}),
     ]
 }
 
@@ -73,7 +78,13 @@ pub fn gen_case(rng: &mut Rng, idx: usize, _thorough: bool) -> Value {
     match idx % 4 {
         0 => { let (g, _) = c05::gen_cfg(rng); json!({"lark": g.to_lark()}) }
         1 => { let g = crate::lark::gen_lark(rng); json!({"lark": g.to_lark()}) }
-        2 => json!({"json_schema": gen_schema(rng, 0)}),
+        2 => {
+            // half of the time two sub-schemas are moved into $defs and referenced once each under an anyOf
+            if rng.chance(1, 2) {
+                let a = gen_schema(rng, 1); let b = gen_schema(rng, 1);
+                json!({"json_schema": {"anyOf":[{"$ref":"#/$defs/A"},{"type":"boolean"},{"$ref":"#/$defs/B"}],"$defs":{"A":a,"B":b}}})
+            } else { json!({"json_schema": gen_schema(rng, 0)}) }
+        }
         _ => { let c = crate::engine::small_corpus(); rng.pick(&c).to_json() }
     }
 }
